@@ -7,8 +7,10 @@ import (
 	"bytes"
 	"encoding/hex"
 	"fmt"
+	"reflect"
 	"runtime"
 	"testing"
+	"testing/iotest"
 	"time"
 
 	fdo "github.com/fido-device-onboard/go-fdo"
@@ -184,6 +186,23 @@ func evalDecodeOpt(d decDesc, meter bool) ev.Result {
 		var next uint16
 		if err := cbor.NewDecoder(rd).Decode(&next); err != nil || next != 0xabcd {
 			return ev.Failf(key+":next-item", "after decoding %s into %s the next item was not readable (got %#x, err %v)", clip(d.Hex), d.Target, next, err)
+		}
+	}
+	// (1b) the same stream delivered in one-byte reads must decode identically
+	if len(stream) <= 4096 {
+		rd1 := bytes.NewReader(stream)
+		ptr1 := tg.new()
+		err1 := cbor.NewDecoder(iotest.OneByteReader(rd1)).Decode(ptr1)
+		consumed1 := len(stream) - rd1.Len()
+		if (err1 == nil) != (derr == nil) || (derr == nil && consumed1 != consumed) {
+			return ev.Failf(key+":short-reads", "decoding %s into %s from a one-byte-at-a-time reader: err=%v consumed=%d; from a bytes.Reader: err=%v consumed=%d", clip(d.Hex), d.Target, err1, consumed1, derr, consumed)
+		}
+		if derr == nil {
+			a, errA := cbor.Marshal(reflect.ValueOf(ptr).Elem().Interface())
+			b, errB := cbor.Marshal(reflect.ValueOf(ptr1).Elem().Interface())
+			if (errA == nil) != (errB == nil) || !bytes.Equal(a, b) {
+				return ev.Failf(key+":short-reads-value", "decoding %s into %s yields different values depending on read sizes: %x vs %x", clip(d.Hex), d.Target, a, b)
+			}
 		}
 	}
 	// (2) whole-buffer decoding never succeeds with bytes left over
